@@ -14,6 +14,10 @@ def describe(c):
     line = s(c["tail"])
     if c["mode"] == "strings":
         return "input %r as %s: line tail %r" % (s(c["in"]), c["pos"], line)
+    if c["mode"] == "time":
+        return "record time %s written as line %r" % (s(c["in"]), line)
+    if c["mode"] == "source":
+        return "source enabled, call site in a file with an unusual name (%s logger): line tail %r" % (c["pos"], line)
     if c["mode"] == "values":
         return "value kind %s (%s, source=%s): line tail %r" % (c["kind"], c["where"], c["source"], line)
     def f(nodes):
@@ -50,7 +54,8 @@ def run(ctx):
     bad, _, _ = judge(ctx, "logger", "TextCases", rows, per_shard=3000 if q else 100000, workers=1, timeout=3000, xmx="3g" if q else "6g")
     seen = {}
     for c in bad:
-        sig = "string fidelity (%s)" % c["pos"] if c["mode"] == "strings" else ("value kind %s" % c["kind"] if c["mode"] == "values" else "structure")
+        sig = {"strings": "string fidelity (%s)" % c.get("pos"), "values": "value kind %s" % c.get("kind"), "time": "record time",
+               "source": "source token"}.get(c["mode"], "structure")
         seen[sig] = seen.get(sig, 0) + 1
         if seen[sig] <= 2:
             ctx.violation(sig, describe(c), c)
